@@ -391,12 +391,13 @@ func init() {
 			"(K-chan) a failing stage cannot leave its neighbours blocked on a channel: pools with unbuffered links cancel on error or their stages drain their input, so the command terminates with the error;",
 			"(D-write-last) once the directive writers (journal.Print, the beancount transcoder) have started to write, the only errors they return come from writing: no validation can fail after the first byte of the report;",
 			"(I-locks) no function of a registry calls, while it holds the registry's mutex, a function that acquires it again (sync.RWMutex is not reentrant: the command would hang);",
+			"(D-flag-bound) an integer flag that reaches a sink linear in its value (StringFixed places, strings.Repeat, make) is compared with a constant upper bound on a branch that fails the command;",
 		},
 		NotDecided: []string{
 			"implicit panics in general (index and slice bounds that do not come from a flag or from the input text, nil maps, type assertions);",
 			"memory bounds other than the include cycle; hangs other than the channel protocol of C19.",
 		},
-		Rules: []Rule{RuleCPanic, RuleDDiv, RuleDNilFlag, RuleDFlagInt, RuleDMakeCap, RuleDRecursion, RuleKNestedLimit, RuleKChan, RuleKErrors, RuleDOutAfter, RuleDWriteLast, RuleELoops, RuleILocks},
+		Rules: []Rule{RuleCPanic, RuleDDiv, RuleDNilFlag, RuleDFlagInt, RuleDMakeCap, RuleDRecursion, RuleKNestedLimit, RuleKChan, RuleKErrors, RuleDOutAfter, RuleDWriteLast, RuleELoops, RuleILocks, RuleDFlagBound},
 	})
 }
 
